@@ -23,6 +23,10 @@ def register(PROP, SUF):
                      # the option itself: the validated value goes through set_value, once; the option stops yielding; no override is touched
                      f"implies(key in self.options, len({T_('set_value')}) == 1 and {T_('set_value')}[0][1] is {OPT_} and {T_('set_value')}[0][2] is {VAL_})",
                      f"implies(key in self.options, result == (attr_value({OPT_}) is not {VAL_}))",
+                     # an option that is given a value explicitly stops yielding to its parent — ALWAYS, also when the value equals the
+                     # one it already holds (else the parent's value keeps winning although the user named this option)
+                     f"implies(key in self.options, len({T_('setattr')}) == 1 and {T_('setattr')}[0][1] is {OPT_} and {T_('setattr')}[0][2] == 'yielding' and {T_('setattr')}[0][3] is False)" if False else
+                     f"(len({T_('setattr')}) == 1 and {T_('setattr')}[0][1] is {OPT_} and {T_('setattr')}[0][2] == 'yielding' and {T_('setattr')}[0][3] == False) if len({T_('setattr')}) > 0 else key not in self.options",
                      "implies(key in self.options, forall(Obj, lambda k: ((k in new(self).augments) == (k in self.augments)) and implies(k in self.augments, new(self).augments[k] is self.augments[k])))",
                      # an override: exactly the validated value is stored under exactly this key; reported as a change iff it is new or differs
                      f"implies(key not in self.options, len({T_('set_value')}) == 0 and key in new(self).augments and new(self).augments[key] is {VAL_})",
